@@ -292,6 +292,9 @@ func avalCoq(v interface{}, ret fedgen.Ret) string {
 		}
 		return "(AScalar (JStr " + vh.CoqString(x) + "))"
 	case fedgen.Ref:
+		if ret.Kind == "union" {
+			return "(AURef " + vh.CoqString(x.Type) + " " + vh.CoqZ(x.Id) + ")"
+		}
 		return "(ARef " + vh.CoqString(x.Type) + " " + vh.CoqZ(x.Id) + ")"
 	case fedgen.LeafV:
 		return "(ALeaf " + vh.CoqZ(x.Val) + " " + vh.CoqString(x.Tag) + ")"
